@@ -62,7 +62,7 @@ func (r *Ring) SubRNSScalar(s1, s2, sout RNSScalar) {
 // Multiplication is operated with Montgomery.
 func (r *Ring) MulRNSScalar(s1, s2, sout RNSScalar) {
 	for i, s := range r.SubRings[:r.level+1] {
-		sout[i] = MRedLazy(s1[i], s2[i], s.Modulus, s.MRedConstant)
+		sout[i] = MRed(s1[i], s2[i], s.Modulus, s.MRedConstant)
 	}
 }
 
